@@ -350,7 +350,6 @@ func runC10(c *Ctx) {
 	// ---------- R10.6 what was persisted is what the store keeps serving
 	c.Import(runC19, "R19.3", "pkg/resource.Finalizers)", "R10.6", "E3", "Finalizers.Add/Remove write only to storage created in the same call: an update whose persist step failed (built on a copy of the stored resource) cannot alter the in-memory resource that stays in place", 2)
 
-
 	// ---------- error discipline (E8)
 	errDisciplineFor(c, "C10")
 
